@@ -111,6 +111,13 @@ pub const LEX_POOL: &[&str] = &[
     "{\"a\":1}",
     "[1,2]",
     "null",
+    "\u{feff}",
+    "a\u{feff}b",
+    "&quot;",
+    "say &quot;hi&quot; &apos;",
+    "&lt;&gt;",
+    "&#65;&#x41;",
+    "&amp;quot;",
     "\u{664}\u{662}",
     "\u{ff11}\u{ff12}",
     "\u{967}.\u{96b}",
@@ -235,7 +242,13 @@ pub fn draw_subset<'a>(t: &mut Tape, pool: &'a [&'a str], lo: usize, hi: usize) 
 /// A Unicode scalar value drawn by class, so that every C0/C1 control, the BMP, the astral
 /// planes and the noncharacters are all reachable (the pool alone names only a few of them).
 pub fn draw_char(t: &mut Tape) -> char {
-    let c = match t.draw(8) {
+    // scalar values with a role of their own in text encodings and line handling
+    const SPECIAL: &[u32] = &[
+        0xFEFF, 0xFFFE, 0xFFFD, 0xFFFF, 0x2028, 0x2029, 0x85, 0xA0, 0x200B, 0x200E, 0xAD, 0xD7FF, 0xE000, 0x10FFFF, 0x1FFFE,
+        0x7F, 0x0, 0xB, 0xC,
+    ];
+    let c = match t.draw(9) {
+        8 => SPECIAL[t.below(SPECIAL.len())],
         0 | 1 => t.draw(0x20) as u32,                 // every C0 control
         2 => 0x7F + t.draw(0x21) as u32,              // DEL and C1
         3 => 0x20 + t.draw(0x5F) as u32,              // printable ASCII
